@@ -98,7 +98,8 @@ func (o OracleC10) After(x *Exec, op *Op, res *Res) {
 			// tokens per share > 1 makes each share unit worth more than one token
 			tps := new(big.Rat).Quo(intRat(s.Vals[i].Tokens), decRat(s.Vals[i].Shares))
 			if tps.Cmp(big.NewRat(1, 1)) > 0 {
-				tol.Add(tol, tps)
+				// staking shares have 18 digits: one share unit (1e-18 share) is worth tps*1e-18 tokens
+				tol.Add(tol, new(big.Rat).Mul(tps, big.NewRat(1, 1_000_000_000_000_000)))
 			}
 		}
 		diff := new(big.Rat).Sub(got, target)
